@@ -64,9 +64,9 @@ FLOORS = {
     "quick": {"distinct_nontrivial": 32000, "evaluations": 290000, "stacks": 1600, "nontrivial_cases": 60000,
               "tie_cases": 5000, "display_values_compared": 17000, "invalid_cases": 700, "invalid_rejected": 550,
               "cli_display_runs": 8, "cli_invalid_runs": 8, "diag_modules_checked": 250, "cli_diag_files": 48},
-    "thorough": {"distinct_nontrivial": 15000, "evaluations": 4000000, "stacks": 30000,
-                 "display_values_compared": 3000000, "invalid_cases": 400, "invalid_rejected": 300,
-                 "cli_display_runs": 60, "diag_modules_checked": 2000, "cli_diag_files": 150},
+    "thorough": {"distinct_nontrivial": 300000, "evaluations": 8000000, "stacks": 30000, "nontrivial_cases": 2000000,
+                 "tie_cases": 150000, "display_values_compared": 1000000, "invalid_cases": 700, "invalid_rejected": 550,
+                 "cli_display_runs": 60, "cli_invalid_runs": 50, "diag_modules_checked": 2000, "cli_diag_files": 150},
 }
 NSHARDS = 16
 WATCHDOG_S = {"quick": 900, "thorough": 7200}
@@ -932,8 +932,8 @@ def check_stack(ctx, rep: Reporter, stack: dict, cmds: list, sample: dict) -> No
                 for s in v for k, _ in s)
             sweep_path = ctx.rng.choice(PATHS) if sweep else None
             others = [c for c in ALL_CODES if c not in CODES]
-            if sweep and ctx.quick:
-                others = ctx.rng.sample(others, 16)
+            if sweep:
+                others = ctx.rng.sample(others, ctx.pick(16, 40))
             api_values = {}
             for path in PATHS:
                 opts = OPTS if path != sweep_path else OPTS + others
